@@ -56,6 +56,10 @@ func (it c20Item) sql() string {
 		return fmt.Sprintf("ASYNC.fx(%d, a) AS %s", it.Site, it.Alias)
 	case "spin":
 		return fmt.Sprintf("SPINASYNC.fx(%d, a)", it.Site)
+	case "getsub":
+		return fmt.Sprintf("(SELECT GETVAR('%s') AS g FROM dual) AS %s", it.Key, it.Alias)
+	case "setv_async":
+		return fmt.Sprintf("ASYNC.setv(%d, 'zz', id) AS %s", it.Site, it.Alias)
 	case "set":
 		var v string
 		switch it.VKind {
@@ -71,6 +75,8 @@ func (it c20Item) sql() string {
 			v = "a + id"
 		case "getvar":
 			v = fmt.Sprintf("GETVAR('%s')", it.VKey)
+		case "bool":
+			v = map[bool]string{true: "TRUE", false: "FALSE"}[it.VNum == 1]
 		}
 		return fmt.Sprintf("SETVAR('%s', %s)", it.Key, v)
 	}
@@ -92,7 +98,7 @@ func genC20(t *rapid.T) *Bundle {
 	keys := []string{"k1", "k2", "k3"}[:rapid.IntRange(1, 3).Draw(t, "nkeys")]
 	init := map[string]any{}
 	if rapid.Bool().Draw(t, "preset") {
-		init[keys[0]] = "init"
+		init[keys[0]] = rapid.SampledFrom([]any{"init", "1", float64(1), true}).Draw(t, "preset_value")
 	}
 	nq := rapid.IntRange(1, 4).Draw(t, "nqueries")
 	exp := c20Expect{Init: init}
@@ -103,6 +109,7 @@ func genC20(t *rapid.T) *Bundle {
 	site := 0
 	var ops []casefmt.Op
 	var sites []int
+	varCorunner := false
 	for qi := 0; qi < nq; qi++ {
 		q := c20Query{WhereK: -1}
 		q.Dual = rapid.IntRange(0, 5).Draw(t, "dual") == 0
@@ -112,7 +119,7 @@ func genC20(t *rapid.T) *Bundle {
 		ni := rapid.IntRange(1, 7).Draw(t, "nitems")
 		usedCols := map[string]bool{}
 		for i := 0; i < ni; i++ {
-			kinds := []string{"set", "get", "set", "get", "col", "async", "spin"}
+			kinds := []string{"set", "get", "set", "get", "col", "async", "spin", "getsub", "setv_async"}
 			if q.Dual {
 				kinds = []string{"set", "get"}
 			}
@@ -132,22 +139,35 @@ func genC20(t *rapid.T) *Bundle {
 				it.Site = site
 				it.Alias = fmt.Sprintf("y%d", i)
 				sites = append(sites, site)
+			case "getsub":
+				it.Key = rapid.SampledFrom(keys).Draw(t, "key")
+				it.Alias = fmt.Sprintf("s%d", i)
+			case "setv_async":
+				// user code on an ASYNC goroutine writes another key ('zz') of the same variable context
+				site++
+				it.Site = site
+				it.Alias = fmt.Sprintf("w%d", i)
+				sites = append(sites, site)
+				varCorunner = true
 			case "set":
 				it.Key = rapid.SampledFrom(keys).Draw(t, "key")
-				vk := []string{"col", "num", "str", "null", "sum", "getvar"}
+				vk := []string{"col", "num", "str", "null", "sum", "getvar", "bool", "str", "num"}
 				if q.Dual {
-					vk = []string{"num", "str", "null", "getvar"}
+					vk = []string{"num", "str", "null", "getvar", "bool"}
 				}
 				it.VKind = rapid.SampledFrom(vk).Draw(t, "vkind")
 				switch it.VKind {
 				case "col":
 					it.VCol = rapid.SampledFrom([]string{"a", "b", "id"}).Draw(t, "vcol")
 				case "num":
-					it.VNum = float64(rapid.IntRange(-2, 9).Draw(t, "vnum"))
+					it.VNum = float64(rapid.SampledFrom([]int{0, 1, 7, -2, 3}).Draw(t, "vnum"))
 				case "str":
-					it.VStr = rapid.SampledFrom([]string{"p", "q", ""}).Draw(t, "vstr")
+					// incl. strings that print like numbers, booleans and NULL: a register holds the value written, not a look-alike
+					it.VStr = rapid.SampledFrom([]string{"p", "q", "", "1", "0", "7", "true", "<nil>"}).Draw(t, "vstr")
 				case "getvar":
 					it.VKey = rapid.SampledFrom(keys).Draw(t, "vkey")
+				case "bool":
+					it.VNum = float64(rapid.IntRange(0, 1).Draw(t, "vbool"))
 				}
 			}
 			q.Items = append(q.Items, it)
@@ -188,6 +208,10 @@ func genC20(t *rapid.T) *Bundle {
 					out[it.Alias] = model[it.Key] // nil when never set
 				case "async":
 					out[it.Alias] = stubValue("fx", it.Site, row["a"])
+				case "getsub":
+					out[it.Alias] = map[string]any{"g": model[it.Key]}
+				case "setv_async":
+					out[it.Alias] = nil
 				case "set":
 					var v any
 					switch it.VKind {
@@ -203,6 +227,8 @@ func genC20(t *rapid.T) *Bundle {
 						v = row["a"].(float64) + row["id"].(float64)
 					case "getvar":
 						v = model[it.VKey]
+					case "bool":
+						v = it.VNum == 1
 					}
 					model[it.Key] = v
 				}
@@ -226,6 +252,9 @@ func genC20(t *rapid.T) *Bundle {
 	if len(sites) > 0 {
 		tags = append(tags, "with_async_corunners")
 	}
+	if varCorunner {
+		tags = append(tags, "var_corunner")
+	}
 	return &Bundle{Prop: "C20", Kind: "history", Case: c, Expect: mustJSON(exp), Tags: tags}
 }
 
@@ -234,9 +263,17 @@ func evalC20(b *Bundle, r *Runner) []*Violation {
 	if err := json.Unmarshal(b.Expect, &exp); err != nil {
 		infra("C20: bad expectation: %v", err)
 	}
-	o := r.Run(&b.Case, false)
+	// histories with user code writing the variable context from ASYNC goroutines run in the -race child
+	race := b.hasTag("var_corunner")
+	o := r.Run(&b.Case, race)
 	if hv := processHealth(b, o); len(hv) > 0 {
 		return hv
+	}
+	for i, sig := range o.Races {
+		if strings.Contains(sig, "VarFunc") {
+			return []*Violation{mkViolation(b, "VAR_CONTEXT_RACE", raceFuncSig(sig), "unsynchronised access to the variable context: "+sig+"\n"+o.RaceTexts[i], o)}
+		}
+		r.Stats.probe("race_outside_variable_context_left_to_C13")
 	}
 	if len(o.Ops) != len(exp.Queries) {
 		infra("C20: expected %d op observations, got %d", len(exp.Queries), len(o.Ops))
@@ -272,6 +309,9 @@ func evalC20(b *Bundle, r *Runner) []*Violation {
 		}
 		wantVars := exp.Vars[qi]
 		gotVars := normJSON(op.VarsAfter)
+		if gm, ok := gotVars.(map[string]any); ok {
+			delete(gm, "zz") // written by ASYNC co-runners in schedule order: not part of the register model
+		}
 		if !jsonEqual(gotVars, wantVars) {
 			return []*Violation{mkViolation(b, "REGISTER_FINAL_STATE", "", fmt.Sprintf("after query %d of %d: %s\n history so far: %s\n model map  %s\n caller map %s", qi+1, len(exp.Queries), q, c20History(&exp, qi), canonText(wantVars), compact(op.VarsAfter)), o)}
 		}
@@ -295,7 +335,7 @@ func c20History(e *c20Expect, upto int) string {
 
 func init() {
 	register(&Property{
-		ID: "C20", Plain: true, Level: "exploration",
+		ID: "C20", Plain: true, Race: true, Level: "exploration",
 		Rule: "cases = rapid-generated histories: 1-4 queries sharing one caller-owned variable map (optionally pre-set), each over 0-5 rows (or FROM dual) with 1-7 select items interleaving SETVAR(k, column/nullable column/literal/NULL/expression/GETVAR(k')) and GETVAR(k) over 1-3 keys with plain columns and ASYNC/SPINASYNC stub co-runners (simulated latencies, np/walk/pct schedules, adversarial map orders), optional WHERE; a sequential per-key register model replays the history in (query, row, item) order and must equal every GETVAR column, the absence of SETVAR columns and the caller's map after each Exec; non-trivial = >=2 tasks runnable at some yield or a non-identity map order applied; distinct = distinct case-file hash",
 		Gen:  genC20, Eval: evalC20, QuickChecks: 1500,
 		Assumptions: []string{
